@@ -26,7 +26,8 @@ RULE = (
 
 
 def features():
-    return Features(first=False, index=False, nullable=False)
+    # First() is generated; events hold at least one element per collection so that it rarely faults (a faulting case is discarded)
+    return Features(first=True, index=False, nullable=False)
 
 
 def case_strategy(backend):
@@ -44,7 +45,7 @@ def case_strategy(backend):
             feat.user_funcs = funcs
         q = draw(queries(sch, feat, fuel_range=(2, 3), extra_md=fmd if use_funcs else ()))
         uses = q.uses or [(sch.colls[0].accessor, sch.colls[0].banks[0])]
-        evs = draw(events_strategy(sch, uses, n_min=5, n_max=8, null_links=False))
+        evs = draw(events_strategy(sch, uses, n_min=5, n_max=8, null_links=False, min_size=1))
         n = len(evs)
         perms = [draw(st.permutations(list(range(n)))) for _ in range(2)]
         cut = draw(st.integers(1, n - 1))
